@@ -252,7 +252,8 @@ def gen(seed, idx, tier, ctx):
              'stream', 'tstream', 'cli', 'cli', 'cli', 'cli_invalid']
     if len(text) > 8000:
         n_items = rng.choice([2, 3])
-        kinds = ['stream', 'tstream', 'sio', 'cli', 'bytes_enc']
+        kinds = ['stream', 'tstream', 'sio', 'cli', 'bytes_enc',
+                 'bytes_utf8', 'bytes_fallback']
     if crlf:
         kinds = ['bytes_enc', 'bytes_utf8', 'bytes_fallback', 'sio',
                  'tstream', 'tstream']
@@ -328,7 +329,8 @@ def gen(seed, idx, tier, ctx):
             dst = rng.choice(['stdout', 'file'])
             it = {'k': 'cli', 'in': src, 'out': dst, 'flags': argv,
                   'opts': copts, 'enc': enc, 'spell': spell,
-                  'stdout_enc': rng.choice(['utf-8', enc]),
+                  'stdout_enc': rng.choice(['utf-8', 'utf-8', enc, enc,
+                                            'ascii', 'latin-1']),
                   'buf': rng.choice(BUF_SIZES),
                   'obuf': rng.choice(BUF_SIZES),
                   'rplan': draw_read_plan(rng, data, inside, False),
@@ -487,14 +489,16 @@ def run_cli_item(item, text, ref, stat, viols, ii, want_bytes=False):
     invalid = item['k'] == 'cli_invalid'
     out_enc = enc if item['out'] == 'file' else (item.get('stdout_enc')
                                                  or 'utf-8')
-    if not invalid and ref is not None and ref['k'] == 'ok' and not (
+    # Output that one of the candidate output encodings cannot represent
+    # (stdout's own, or --encoding) is the environment's limit: the tool may
+    # then fail visibly - but if it reports success the output must still
+    # be exact (no silent '?' or dropped characters).
+    unencodable = bool(
+        not invalid and ref is not None and ref['k'] == 'ok' and not (
             can_encode(ref.get('v', ''), out_enc)
-            and can_encode(ref.get('v', ''), enc)):
-        # e.g. identifier_case=upper turns a letter into one the output
-        # encoding cannot represent: the environment's limit, no expectation
-        stat('cli_skipped_output_not_encodable')
-        return chan, 'cli|skipped-unencodable', False, {'bytes': None,
-                                                        'rc': None}
+            and can_encode(ref.get('v', ''), enc)))
+    if unencodable:
+        stat('cli_output_not_encodable_in_some_output_encoding')
     if item['in'] == 'file':
         if item.get('open_r_err') == errno.ENOENT:
             pass
@@ -655,6 +659,8 @@ def run_cli_item(item, text, ref, stat, viols, ii, want_bytes=False):
         stat('cli_failed_visibly')
         if errs:
             stat('faulted_item_failed_visibly')
+        elif unencodable:
+            stat('cli_failed_visibly_on_unencodable_output')
         elif ref is not None and ref['k'] == 'exc':
             stat('cli_failed_like_format')
         else:
@@ -864,8 +870,9 @@ def extra_phase(tier, seed, ws, agg, run_spec_on):
             spec['items'] = items[:1]
             spec['want_bytes'] = True
             r = run_spec_on(w, spec)
-            if r.get('status') != 'ok' or not r.get('cli_out'):
-                continue
+            if r.get('status') != 'ok' or not r.get('cli_out') or \
+                    r['cli_out'][0].get('rc') != 0:
+                continue      # e.g. output not encodable on this stdout
             it = items[0]
             sim_bytes = bytes.fromhex(r['cli_out'][0]['bytes'] or '')
             data = spec['text'].encode(it['enc'])
